@@ -16,7 +16,7 @@ META = dict(
     functions_encoded=['control.OrderDSCForBuild', 'control.ParseDsc (composition: the .dsc text is parsed first)', '(*Dependency).GetPossibilities', '(*ArchSet).Matches', '(*Arch).Is',
                        'topsort.NewNetwork/AddNode/AddEdge/Sort/sortNodes/sortSingleNodes (from SSA)', 'control.Unmarshal over DSC (reflect model)'],
     stubs=['reflect model', 'strings models'],
-    bounds={'quick': 'every build-dependency graph on 3 sources (all 64 edge sets, cyclic or not, plus 19 of them with a self-dependency added), each source with 2 binaries listed as "Binary: a, b"; each edge carried in turn by Build-Depends, Build-Depends-Arch or Build-Depends-Indep, plain / with an applicable [amd64] list / as the second alternative behind a non-applicable one / behind a substvar; decoys that must be ignored: unknown names, substvars, later alternatives, alternatives restricted to other architectures; source and binary names with symbolic characters',
+    bounds={'quick': 'every build-dependency graph on 3 sources (all 64 edge sets, cyclic or not, plus 19 of them with a self-dependency added), each source with 2 binaries listed as "Binary: a, b" or folded after the comma; edges also carried by a qualified name (b:native, b:any); each edge carried in turn by Build-Depends, Build-Depends-Arch or Build-Depends-Indep, plain / with an applicable [amd64] list / as the second alternative behind a non-applicable one / behind a substvar; decoys that must be ignored: unknown names, substvars, later alternatives, alternatives restricted to other architectures; source and binary names with symbolic characters',
             'thorough': 'every graph on 4 sources whose edge set has at most 5 edges (a sample of the larger ones), and 3 sources with 2-character symbolic names'},
     outside_claim=['more than 4 sources', 'two sources building the same binary (assumed away)'],
     assumptions=['the build architecture is amd64'])
@@ -92,8 +92,12 @@ def run_job(env, job):
                 continue
             b = bins[i][(e_idx + var) % 2]
             carrier = keys[(e_idx + var) % 3]
-            style = (e_idx + 2 * var) % 4
-            if style == 0:
+            style = (e_idx + 2 * var + jj) % 6
+            if style == 4:
+                txt = b + tuple(b':native')          # a multiarch qualifier does not take the edge away
+            elif style == 5:
+                txt = b + tuple(b':any (>= 1) [amd64]')
+            elif style == 0:
                 txt = b
             elif style == 1:
                 txt = b + tuple(b' (>= 2) [amd64 i386]')
@@ -104,7 +108,10 @@ def run_job(env, job):
             fields[carrier].append(txt)
         d.field(b'Format', b'3.0 (quilt)')
         d.field(b'Source', srcs[j])
-        d.field(b'Binary', c10.J(bins[j], b', '))
+        if (j + var) % 2:
+            d.field(b'Binary', bins[j][0] + tuple(b','), [bins[j][1]])      # folded after the comma, as dpkg-source writes long lists
+        else:
+            d.field(b'Binary', c10.J(bins[j], b', '))
         d.field(b'Architecture', b'any')
         d.field(b'Version', b'1.0-1')
         d.field(b'Maintainer', b'M <m@x>')
